@@ -3,8 +3,10 @@ EXTENDS KeyEncoding
 OutFileC == "key_states.json"
 NoOutC == ""
 OutSetsQ == { {}, {"o"}, {"o", "p"}, {"o,p"} }
-DepSetsQ == { {}, {"h1"}, {"h1", "h2"} }
-DepSetsS == { {}, {"h1"} }
+DepSetsQ == { {}, {"h1"}, {"h1", "h2"}, {"k", "w"}, {"file::o", "file::p"} }
+\* dependency hashes are opaque strings: two menus reuse the strings of a neighbouring list (fingerprint key/value, output
+\* definitions), so that an element sequence moving from one list into the next one across an empty list is in the universe
+DepSetsS == { {}, {"h1"}, {"k", "w"}, {"file::o", "file::p"} }
 DeclSetsS == { {"a", "b"}, {"a,b"}, {"a", "b", "a,b"} }
 DeclSetsQ == { {"a"}, {"a", "b"}, {"a,b"}, {"a", "a,b"}, {"a", "b", "a,b"} }
 OutSetsS == { {}, {"o", "p"}, {"o,p"} }
